@@ -769,7 +769,7 @@ apply_environment (plan const &p)
   fs_reset ();
   fs_set_tests_dir (getenv ("ZSIM_TESTS_DIR") ? getenv ("ZSIM_TESTS_DIR") : "/repo/tests");
   for (auto const &f: p.files)
-    fs_add_override (f.vpath, f.backing, f.open_errno);
+    fs_add_override (f.vpath, f.backing, f.open_errno, f.patches);
   fs_set_deny_mmap (p.knob ("deny_mmap", 0) != 0);
   hooks_set_poison ((int) p.knob ("poison", 85));
   hooks_set_cache_drop (p.knob ("cache_period", 0), p.knob ("cache_offset", 0));
@@ -842,6 +842,7 @@ child_run_plan (plan const &p, int out_fd)
   emit ("ctr io_eio " + std::to_string (fc.io_eio));
   emit ("ctr io_short " + std::to_string (fc.io_short));
   emit ("ctr io_eintr " + std::to_string (fc.io_eintr));
+  emit ("ctr patched_bytes " + std::to_string (fc.patched_bytes));
   emit ("ctr closes " + std::to_string (fc.closes));
   emit ("ctr double_close " + std::to_string (fc.double_close));
   emit ("ctr close_ebadf_in_libs " + std::to_string (fc.close_ebadf_in_libs));
